@@ -1,5 +1,6 @@
 pub mod autoutil;
 pub mod rectx;
+pub mod selftest;
 pub mod c01;
 pub mod c02;
 pub mod c03;
@@ -24,6 +25,7 @@ pub mod c17;
 use crate::util::*;
 
 pub fn run(p: &Params, rep: &mut Report) -> bool {
+    rectx::CLOSURE_MS.store(if p.thorough { 2000 } else { 400 }, std::sync::atomic::Ordering::Relaxed);
     match p.prop.as_str() {
         "C01" => c01::run(p, rep),
         "C02" => c02::run(p, rep),
